@@ -2,6 +2,7 @@ package rules
 
 import (
 	"fmt"
+	"go/token"
 	"go/types"
 	"sort"
 	"strings"
@@ -212,6 +213,73 @@ func runC05(c *core.Ctx) {
 
 	c.Rule("C05.freshhasher", freshHasherText, 1)
 	checkFreshHasher(c)
+
+	c.Rule("C05.chooserrefuses", "what can be stored can be loaded back with every hash and codec the registries know: each chooser the registry-based link system installs (encoder, decoder, hasher) returns an error only where it hands on the error of the registry look-up, or where the prototype is not of the package's own type (the failed arm of the type switch) - it adds no refusal of its own (a plausibility test on digest length refuses identity links, whose 'digest' is the block)", 6)
+	if _, chs := linkSystemChoosers(p); chs != nil {
+		for _, name := range []string{"EncoderChooser", "DecoderChooser", "HasherChooser"} {
+			cl := chs[name]
+			if cl == nil || len(cl.Blocks) == 0 {
+				continue
+			}
+			errIdx := core.ErrResultIndex(cl)
+			if errIdx < 0 {
+				continue
+			}
+			foreign := core.BoolEdgesWhere(cl, func(v ssa.Value) bool {
+				e, ok := core.Strip(v).(*ssa.Extract)
+				if !ok || e.Index != 1 {
+					return false
+				}
+				ta, ok := e.Tuple.(*ssa.TypeAssert)
+				return ok && ta.CommaOk
+			}, false)
+			n := 0
+			for _, ret := range core.Returns(cl) {
+				if core.ResultNilness(ret, errIdx) == core.IsNil {
+					continue
+				}
+				n++
+				ok := false
+				for _, ev := range core.ResultValues(ret, errIdx) {
+					for w := range core.BackSlice(ev, core.SliceOpts{Local: true}) {
+						if e, isE := w.(*ssa.Extract); isE {
+							if cv, isC := e.Tuple.(*ssa.Call); isC && core.IsErrorType(e.Type()) {
+								if o := core.CalleeObj(cv); o != nil && (o.Name() == "GetHasher" || o.Name() == "LookupEncoder" || o.Name() == "LookupDecoder") {
+									ok = true
+								}
+							}
+						}
+					}
+				}
+				for e := range foreign {
+					if core.EdgeDominates(e, ret.Block()) {
+						ok = true
+					}
+				}
+				// ... or wraps it: the return lies beyond the non-nil edge of the look-up's error
+				for e := range core.EdgesWhere(cl, func(r core.Rel) bool {
+					if r.Op != token.NEQ || !core.IsNilConst(r.Y) {
+						return false
+					}
+					ex, isE := core.Strip(r.X).(*ssa.Extract)
+					if !isE {
+						return false
+					}
+					cv, isC := ex.Tuple.(*ssa.Call)
+					if !isC {
+						return false
+					}
+					o := core.CalleeObj(cv)
+					return o != nil && (o.Name() == "GetHasher" || o.Name() == "LookupEncoder" || o.Name() == "LookupDecoder")
+				}) {
+					if core.EdgeDominates(e, ret.Block()) {
+						ok = true
+					}
+				}
+				c.Check(ok, fmt.Sprintf("%s#refusal%d", core.FuncKey(cl), n), p.Pos(ret.Pos()), "hands on the registry's error, or the prototype is of a foreign type", "the "+name+" refuses a prototype of its own type although the registry did not: links with that hash / codec / length can no longer be loaded (or stored) by this link system while ComputeLink and other link systems still produce them")
+			}
+		}
+	}
 
 	c.Rule("C05.loadside", "every load function asks DecoderChooser about the requested link and HasherChooser about lnk.Prototype()", 4)
 	lsT := p.NamedType("linking", "LinkSystem")
